@@ -2185,6 +2185,9 @@ def _compile_ql_transaction(
 
     elif isinstance(ql, qlast.CommitTransaction):
         ctx._assert_not_in_migration_block(ql)
+        # The schema a migration rewrite is rebuilding exists only here;
+        # committing it would publish it as the schema of the database.
+        ctx._assert_not_in_migration_rewrite_block(ql)
 
         cur_tx = ctx.state.current_tx()
         final_user_schema = cur_tx.get_user_schema_if_updated()
